@@ -794,9 +794,9 @@ def run(ctx):
     if batch:
         check_runs(ctx, res, batch, 'matrix')
     # (b) free scripts
-    check_runs(ctx, res, [rand_case(rng) for _ in range(ctx.n(2500, 40000))], 'prng')
+    check_runs(ctx, res, [rand_case(rng) for _ in range(ctx.n(2500, 25000))], 'prng')
     # (c) helpers and int()
-    blocks = [(rand_free_block(rng), rng.random() < 0.8) for _ in range(ctx.n(3000, 60000))]
+    blocks = [(rand_free_block(rng), rng.random() < 0.8) for _ in range(ctx.n(3000, 40000))]
     blocks += [([[':status', '200'], ['content-type', 'application/grpc'], ['grpc-status', s]], True)
                for s in NONASCII_GS + GS_OK + GS_INVALID]
     check_blocks(ctx, res, blocks)
